@@ -29,6 +29,8 @@ CONFIG = dict(
     units=[
         dict(test="TestC24", quick=12000, thorough=1600000, shards=16, steps=40),
         dict(test="TestC24CompactPrefixes", kind="plain"),
+        # tables handed out by MigrateTables for anonymous, run-time made and (same-named function-local) named structs
+        dict(test="TestC24Migrate", quick=2000, thorough=160000, shards=16),
         dict(test="FuzzC24", kind="fuzz", fuzztime="60s", tiers=["thorough"]),
     ],
 )
